@@ -559,6 +559,63 @@ def c10(ctx):
 
 
 # ---------------------------------------------------------------------------
+# C18  propagation copies exactly the upstream subtree and is idempotent (two real repositories)
+
+PROP_DEVS = {"AlreadyPropagatedIgnoresUpstreamPath", "ModesNotPreserved"}
+
+
+def c18(ctx):
+    q = ctx.quick()
+    known, asbuilt = devsets("C18")
+    asbuilt = (asbuilt & PROP_DEVS) | known
+    mod = 61 if q else 23
+    consts = {"MaxLen": 4 if q else 5, "Dev": set(), "EmitMod": mod, "EmitRes": ctx.seed % mod}
+    mc = model_check(ctx, "MC_Propagation", dict(constants=consts, invariants=["Refines", "Guarantees", "Idempotent"], view="View",
+                                                 constraints=["Emit"]), workers=8, timeout=3 * 3600)
+    # teeth: with the listed deviations the guarantees fail in the model
+    for d in sorted(PROP_DEVS):
+        r = run_tlc(ctx, "MC_Propagation", dict(constants=dict(consts, MaxLen=3, Dev={d}, EmitMod=1, EmitRes=0), invariants=["Refines"], view="View"),
+                    workers=4, timeout=1800)
+        if r.error or not r.violated:
+            raise Infra("deviation %s was expected to break Refines (vacuity guard): %s" % (d, r.error or "no violation"))
+    scns, seen = [], set()
+    for x in mc.records:
+        k = json.dumps(x, sort_keys=True)
+        if x.get("t") == "SCN" and k not in seen:
+            seen.add(k)
+            scns.append(x)
+    if not scns:
+        raise Infra("TLC emitted no scenarios")
+    scn_path = os.path.join(ctx.scratch, "scn.ndjson")
+    write_ndjson(scn_path, scns)
+    trace = os.path.join(ctx.scratch, "trace.ndjson")
+    run_vh(ctx, ["propagation", "-scn", scn_path, "-out", trace, "-seed", ctx.seed, "-n", 100 if q else 1500], timeout=6 * 3600)
+    cls = validate_trace(ctx, "Trace_Propagation", trace, {"Known": known, "AsBuilt": asbuilt}, shards=4 if q else 12)
+    lines = {x["id"]: x for x in read_ndjson(trace)}
+    tally = Tally(ctx)
+    for rec in cls:
+        x = rec["r"]
+        ln = lines[rec["id"]]
+        if x["cls"] == "infra":
+            raise Infra("harness could not run scenario %d: %s" % (rec["id"], x.get("why")))
+        item = None
+        if x["cls"] != "conform":
+            item = {"why": x.get("why"), "names": ln["names"], "init": ln["scn"]["init"], "acts": ln["scn"]["acts"], "obs": ln["obs"]}
+        nprop = sum(1 for a in ln["scn"]["acts"] if a["a"] == "propagate")
+        tally.add(x["cls"], item, dev=x.get("dev"), nontrivial_key=rec["id"] if nprop >= 2 else None)
+    return finish(ctx, tally, samples=[{"names": lines[1]["names"], "acts": lines[1]["scn"]["acts"]}], traces=len(cls), exhaustive=False,
+                  assumptions=["upstream and downstream are bare on-disk repositories; the upstream one is built by the harness (objects in Git's byte "
+                               "format, log entries as the entry texts), the downstream one is changed only by "
+                               "propagation.PropagateChangesFromUpstreamRepository and, for downstream edits, by git plumbing",
+                               "observations are read with NUL-delimited git plumbing (ls-tree -r -z, rev-list, cat-file), never through gitinterface",
+                               "four upstream trees (nested directories, an executable file, odd names), directives with upstream path none / one / "
+                               "two components, downstream path one / two components with and without trailing slash, one or two directives per "
+                               "call on disjoint downstream paths; a downstream path that is a file, or an upstream path that is a file, is not covered",
+                               "worktree refresh of non-bare downstream repositories is not covered",
+                               "a seeded sample of the emitted action sequences is replayed"])
+
+
+# ---------------------------------------------------------------------------
 # C12  policy ref advances only to verified descendants that verification accepts
 
 def c12(ctx):
@@ -677,6 +734,7 @@ CHECKS = {
     "C08": c08,
     "C12": c12,
     "C10": c10,
+    "C18": c18,
     "C20": c20,
     "C13": c13,
     "C01": c01,
